@@ -29,6 +29,9 @@ var optGateLabels = map[string]bool{
 	"stage.prepare": true, "stage.receive.begin": true, "stage.receive.written": true,
 	"stage.received": true, "stage.status": true, "stage.scan": true,
 	"stage.recover.cache0": true,
+	// inserted by tools/maporder in front of every acquisition of a per-file
+	// lock in package stage (not a line of /repo): see DESIGN 12.2
+	"stage.pathlock": true,
 }
 
 func (s *Sim) installHook() {
@@ -134,7 +137,7 @@ func isCrashLabel(label string) bool {
 		return false
 	}
 	switch label {
-	case "stage.prepare", "stage.received", "stage.status", "stage.scan":
+	case "stage.prepare", "stage.received", "stage.status", "stage.scan", "stage.pathlock":
 		return false
 	}
 	return true
